@@ -2,8 +2,7 @@
 // CsgLeafNode::Compose (csg_tree.cpp), the disjoint-union fast path, which
 // merges children that may carry a pending (not yet applied) transform.
 // The meshes are empty: only the epsilon / tolerance / bounding-box arithmetic
-// of the real function is under test; the call of SortGeometry (another TU) is
-// redirected to a stub that checks the invariant on the combined Impl.
+// of the real function is under test.
 #include <atomic>
 #include <memory>
 #include <mutex>
@@ -19,12 +18,18 @@ using namespace manifold;
 #endif
 static double F() { return vf_finite(VF_BND); }
 
-static int g_checked = 0;
-extern "C" void vf_stub_SortGeometry(Manifold::Impl* self, void* ctx) {
+// Where the check sits: right after Compose has written epsilon_ / tolerance_ /
+// bBox_ into the combined Impl it sizes that Impl's arrays; the first
+// out-of-line call is Vec<int,true>::resize_nofill on combined.halfedge_
+// (its first member).  That call is redirected here: the invariant is checked
+// on the enclosing Impl and the path ends, so the copy machinery behind it
+// (which does not touch epsilon_/tolerance_ again) is not executed.
+extern "C" void vf_stub_resize_nofill(Vec<int, true>* self, unsigned long n) {
+  const Manifold::Impl* combined = reinterpret_cast<const Manifold::Impl*>(
+      reinterpret_cast<const unsigned char*>(self) - __builtin_offsetof(Manifold::Impl, halfedge_));
   // the invariant every Impl handed on must satisfy (SetTolerance's
-  // "reducing" branch and Simplify rely on it)
-  VF_ASSERT(self->tolerance_ >= self->epsilon_);
-  g_checked++;
+  // "reducing" branch, Simplify and every later SetEpsilon floor rely on it)
+  VF_ASSERT(combined->tolerance_ >= combined->epsilon_);
 #ifdef VF_WITNESS
   vf_witness();
 #endif
@@ -42,16 +47,19 @@ static std::shared_ptr<CsgLeafNode> node(bool withTransform) {
   vf_assume(impl->epsilon_ >= kPrecision * impl->bBox_.Scale());
   vf_assume(impl->tolerance_ >= impl->epsilon_);
   mat3x4 t = la::identity;
-  if (withTransform)
-    for (int c = 0; c < 4; c++)
-      for (int r = 0; r < 3; r++) t[c][r] = F();
+  if (withTransform) {  // pending axis-aligned scale (any sign, any magnitude) and translation
+    for (int r = 0; r < 3; r++) {
+      t[r][r] = F();
+      t[3][r] = F();
+    }
+  }
   return std::make_shared<CsgLeafNode>(impl, t);
 }
 
 extern "C" void h_compose() {
   std::vector<std::shared_ptr<CsgLeafNode>> nodes;
-  nodes.push_back(node(vf_bool()));
-  nodes.push_back(node(vf_bool()));
+  nodes.push_back(node(true));
+  nodes.push_back(node(false));
   auto r = CsgLeafNode::Compose(nodes);
   VF_END();
 }
